@@ -183,6 +183,9 @@ func run(t *testing.T, name string, cfg boxprop.GenConfig) {
 		raw, _ := json.Marshal(c)
 		f := harness.Guarded(func() *harness.Fail { return checkInterchange(c) })
 		cls := []string{"level-" + c.Level, "path-" + c.Path}
+		if c.Synth != nil {
+			cls = append(cls, "synth", "synth-"+c.Origin)
+		}
 		switch {
 		case last.canonical:
 			cls = append(cls, "canonical-string-crossed")
@@ -194,7 +197,7 @@ func run(t *testing.T, name string, cfg boxprop.GenConfig) {
 		if last.fragmented {
 			cls = append(cls, "fragmented-file")
 		}
-		nt := last.canonical && (c.Level == "file" || len(c.Muts) > 0)
+		nt := last.canonical && (c.Level == "file" || len(c.Muts) > 0 || c.Synth != nil)
 		harness.Rec.Case(nt, raw, cls...)
 		if nt && harness.Rec.WantSample() && len(raw) < 400 {
 			harness.Rec.Sample(map[string]interface{}{"kind": "interchange", "case": c})
@@ -223,4 +226,10 @@ func TestRegistries(t *testing.T) {
 	if !reflect.DeepEqual(r, s) {
 		harness.ReportDirect(t, "interchange", boxprop.Case{}, harness.Failf("C03|registry|the two decoder tables have different key sets", "reader %v\nsr %v", r, s))
 	}
+}
+
+// TestSynth: boxes and files written by the grammar generator internal/boxgen, unmodified and with field mutations.
+func TestSynth(t *testing.T) { run(t, "synth", boxprop.GenConfig{MaxSeed: 300 << 10, SynthPct: 100}) }
+func TestSynthMutated(t *testing.T) {
+	run(t, "synthmut", boxprop.GenConfig{MaxSeed: 300 << 10, SynthPct: 100, Mutate: true, FieldOnly: true})
 }
